@@ -9,4 +9,11 @@ def ledger_cases(ctx):
     lines = []
     for _ in range(1500 if not ctx.thorough else 20000):
         lines.append(_value.line_of(_value.rand_sequence(rng, rng.randrange(1, 14))))
+    # GroupBy (scratch stream and key pointer handling), including elements without the key
+    import importlib
+    c18 = importlib.import_module("checks.c18")
+    cases = c18.gen_cases(ctx)
+    for c in cases[:: (1 if ctx.thorough else 3)]:
+        ops = [o.replace("GRP", "grp") if o.startswith("GRP") else o for o in c.ops]
+        lines.append(_value.line_of(ops))
     return "value_harness.cpp", lines
